@@ -37,6 +37,7 @@ class Finding:
 
 class PairFlow:
     def __init__(self, lib, grammar, pratt_ops, max_depth=4000):
+        self.sites = {}
         self.lib = lib
         self.g = grammar
         self.pratt_ops = pratt_ops          # {'prefix': set, 'infix': set, 'postfix': set}
@@ -600,6 +601,10 @@ class PairFlow:
         # crate-local callee (or fn item): interprocedural
         if self.lib.body(callee) is not None:
             vals = [self.deref(env, a) if (a is not None and a[0] == "ref") else a for a in args]
+            # which rules the pair handed over at this call site can have (used by R-PAIRFIELD)
+            for v in vals:
+                if v is not None and v[0] == "pair":
+                    self.sites.setdefault((b.id, bb, callee), set()).update(v[1] if isinstance(v[1], (set, frozenset)) else set())
             return done(self.analyse(callee, vals, chain + ["%s:%s" % (b.id, line)]))
         return done(None)
 
